@@ -306,5 +306,13 @@ def _deref_match_literal(fields, op):
                     cands.add(f"{A}+{K}")
             else:
                 cands.add(A)
-        # b without c / c without b: no objdump operand has "the same present components"
+        elif c is None:
+            # base + index without scale: the two-component form of 16-bit addressing, (a,b) / k(a,b)
+            for B in _alts(b, "%"):
+                if k is not None:
+                    for K in _alts(k, "0x"):
+                        cands.add(f"{A}+{B}+{K}")
+                else:
+                    cands.add(f"{A}+{B}")
+        # c without b: no objdump operand has "the same present components"
     return inner in cands
